@@ -184,6 +184,10 @@ class BooleanOperationsMixin:
                         newpath.append(orig)
                 else:
                     newpath.append(Line(key[0] / precision, key[1] / precision))
+            # the contour is cyclic: the run of edges that ends it may belong
+            # to the same original segment as the run that starts it
+            if not flat and len(newpath) > 1 and newpath[-1] == newpath[0]:
+                newpath.pop()
             outpaths.append(BezierPath.fromSegments(newpath))
         return outpaths
 
